@@ -246,6 +246,11 @@ package encoding
 //@   ensures in_bounds: 0 <= l && l <= cap(b)
 //@   pureheap
 
+//@ func ReadInt64
+//@   ensures tail: obj(result1) == obj(b) && off(result1) == off(b) + 8 && len(result1) == len(b) - 8
+//@   ensures in_bounds: len(b) >= 8
+//@   pureheap
+
 //@ func ReadInt32
 //@   ensures val: result0 == u32At(b, 0)
 //@   ensures tail: obj(result1) == obj(b) && off(result1) == off(b) + 4 && len(result1) == len(b) - 4
